@@ -47,6 +47,7 @@ type c20Job struct {
 type c20WireFail struct {
 	Class string `json:"class"`
 	What  string `json:"what"`
+	Sem   string `json:"sem,omitempty"`
 }
 
 type c20Wire struct {
@@ -95,13 +96,13 @@ func c20Worker(spec string) {
 		w := c20Wire{I: j.I, Skipped: r.skipped, Removed: r.removed, Replaced: r.replaced, Trimmed: r.trimmed,
 			NInc: r.before.nInc, NErr: r.before.nErr, Valid: r.before.valid, Changed: r.changed, SchemaDiff: r.schemaDiff}
 		for _, fl := range r.fails {
-			w.Fails = append(w.Fails, c20WireFail{fl.class, fl.what})
+			w.Fails = append(w.Fails, c20WireFail{fl.class, fl.what, fl.sem})
 		}
 		if j.Shrink && len(r.fails) > 0 {
 			w.Shrunk = map[string]c20Pkg{}
 			for _, fl := range r.fails {
 				if _, ok := w.Shrunk[fl.class]; !ok {
-					w.Shrunk[fl.class] = c20Shrink(j.Pkg, fl.class, j.Budget)
+					w.Shrunk[fl.class] = c20Shrink(j.Pkg, fl.class, fl.sem, j.Budget)
 				}
 			}
 		}
@@ -365,7 +366,7 @@ func c20FromWire(w c20Wire) *c20Result {
 	r := &c20Result{skipped: w.Skipped, removed: w.Removed, replaced: w.Replaced, trimmed: w.Trimmed, changed: w.Changed, schemaDiff: w.SchemaDiff}
 	r.before.nInc, r.before.nErr, r.before.valid = w.NInc, w.NErr, w.Valid
 	for _, f := range w.Fails {
-		r.fails = append(r.fails, c20Fail{f.Class, f.What})
+		r.fails = append(r.fails, c20Fail{f.Class, f.What, f.Sem})
 	}
 	return r
 }
@@ -425,7 +426,7 @@ func c20Report(c *Cfg, cs *c20Case) {
 		}
 		f := hit[0]
 		sh := cs.shrunk[f.class]
-		tag := f.class + c20TagWhat(f.class, f.what, sh)
+		tag := f.class + c20TagWhat(f, sh)
 		c.Count("failing/" + tag)
 		c.Direct(false, tag, f.what, map[string]any{
 			"origin": cs.origin, "package": cs.pkg.String(), "minimised": sh.String(),
@@ -457,7 +458,8 @@ func c20bucket(n int) string {
 var c20errOnlyRe = regexp.MustCompile(`^\S+: err:[a-z-]+ -> err:[a-z-]+$`)
 
 // c20TagWhat refines c20Tag with what was observed.
-func c20TagWhat(class, what string, p c20Pkg) string {
+func c20TagWhat(f c20Fail, p c20Pkg) string {
+	class, what := f.class, f.what
 	switch class {
 	case "eval-changed":
 		// only the error CLASS at some paths differs (incomplete <-> eval)?
@@ -473,14 +475,9 @@ func c20TagWhat(class, what string, p c20Pkg) string {
 				return "/error-class-only"
 			}
 		}
-		// several marked disjunctions unified at one vertex of the minimised package?
-		if paths, ok := c20flatCollect(p); ok {
-			fc := c20flatCtxShared()
-			for _, cs := range paths {
-				if fc.marked(cs) > 1 {
-					return "/multi-default-vertex"
-				}
-			}
+		// attribution computed on the ORIGINAL package's evaluated vertices (c20SemanticClass)
+		if f.sem != "" {
+			return "/" + f.sem
 		}
 	case "not-idempotent":
 		if len(p.Names) > 1 {
